@@ -564,6 +564,45 @@ def check_keys(ctx, w):
                    msg='the same private container receives, under the same key expression, values from different producers: whichever '
                        'ran first answers for the other as well', sample='%s: %s[%s] = %s' % (f.construct, res, key, vals[0][:60]))
     ctx.analysed['memo_producer_sites'] = n_prod
+    # memos shared by all instances (a module-level or class-level container): what an instance method stores there is computed from
+    # that instance; every attribute of `self` the method branches on decides the value and has to be part of the key
+    n_shared = 0
+    for f in w.model.library_funcs():
+        tree = w.model.trees.get(f.mod)
+        if tree is None or not f.node.args.args or f.node.args.args[0].arg != 'self':
+            continue
+        modlevel = set(t.id for st in tree.body if isinstance(st, ast.Assign) and isinstance(st.value, (ast.Dict, ast.Call)) for t in st.targets if isinstance(t, ast.Name))
+        env = expr.FEnv(f.node)
+        for st in walk_no_nested(f.node):
+            if not isinstance(st, ast.Assign):
+                continue
+            for t in st.targets:
+                if not isinstance(t, ast.Subscript):
+                    continue
+                c = t.value
+                shared = (isinstance(c, ast.Name) and c.id in modlevel) or \
+                    (isinstance(c, ast.Attribute) and isinstance(c.value, ast.Name) and (c.value.id == 'cls' or c.value.id[:1].isupper())) or \
+                    (isinstance(c, ast.Attribute) and U(c.value) in ('type(self)', 'self.__class__'))
+                if not shared:
+                    continue
+                n_shared += 1
+                knodes = [t.slice]
+                for x in ast.walk(t.slice):
+                    if isinstance(x, ast.Name) and x.id in env.defs:
+                        knodes.append(env.defs[x.id])
+                kattrs = set(x.attr for k in knodes for x in ast.walk(k) if isinstance(x, ast.Attribute) and isinstance(x.value, ast.Name) and x.value.id == 'self')
+                tested = set()
+                for n in walk_no_nested(f.node):
+                    tests = [n.test] if isinstance(n, (ast.If, ast.IfExp, ast.While)) else []
+                    for tt in tests:
+                        for x in ast.walk(tt):
+                            if isinstance(x, ast.Attribute) and isinstance(x.value, ast.Name) and x.value.id == 'self':
+                                tested.add(x.attr)
+                missing = sorted(tested - kattrs)
+                ctx.ob('J-KEY', f.construct, 'shared memo %s keyed by every attribute of self the method branches on' % U(c), not missing, got=missing, line=st.lineno,
+                       msg='a container shared by all instances is filled from one instance: the value depends on an attribute of self that is not part '
+                           'of the key, so the instance that comes first decides for the others')
+    ctx.analysed['shared_memo_sites'] = n_shared
     # lazy slots: if self._x is None: self._x = f()  -- f takes no parameter of the enclosing function
     for f in w.model.library_funcs():
         params = set(a.arg for a in f.node.args.args if a.arg not in ('self', 'cls'))
